@@ -61,6 +61,8 @@ func alphabet(d *DAG) []Op {
 		Op{Kind: "tag", Node: 2, Ref: "a"}, Op{Kind: "tag", Node: 3, Ref: "a"}, Op{Kind: "tag", Node: 2, Ref: "b"},
 		Op{Kind: "tag", Node: 0, Ref: "c"}, Op{Kind: "tag", Node: 3, Ref: "b", Ann: true}, Op{Kind: "tag", Node: 4, Ref: "c"},
 		Op{Kind: "tag", Node: 3, Ref: "b"}, Op{Kind: "tag", Node: 3, Ref: "c", Ann: true},
+		Op{Kind: "tag", Node: 2, Ref: "b", Ann: true, Foreign: true}, // the descriptor was resolved under another name in another layout
+
 		Op{Kind: "untag", Ref: "a"}, Op{Kind: "untag", Ref: "b"},
 		Op{Kind: "delete", Node: 0}, Op{Kind: "delete", Node: 2}, Op{Kind: "delete", Node: 3}, Op{Kind: "delete", Node: 1},
 		Op{Kind: "gc"},
